@@ -144,15 +144,19 @@ type retained struct {
 }
 
 type taskState struct {
-	lastArg  *argSlice // the task's previous private argument slice (for buffer reuse)
-	reused   int
-	viol     []proto.Violation
-	retained []retained
-	panics   int
-	scribA   int
-	scribR   int
-	ops      int
-	outBytes int64
+	inflight   *argSlice // argument slice of the call that is running right now
+	inOp       int
+	midFlagged bool
+	inFn       string
+	lastArg    *argSlice // the task's previous private argument slice (for buffer reuse)
+	reused     int
+	viol       []proto.Violation
+	retained   []retained
+	panics     int
+	scribA     int
+	scribR     int
+	ops        int
+	outBytes   int64
 }
 
 type runOutcome struct {
@@ -165,7 +169,7 @@ func toPolicy(p proto.PolicyRec) simrt.Policy {
 	kind := map[string]int{"seq": simrt.PolSeq, "walk": simrt.PolWalk, "pct": simrt.PolPCT, "herd": simrt.PolHerd, "stall": simrt.PolStall}[p.Kind]
 	return simrt.Policy{Kind: kind, Seed: p.Seed, PShared: p.PShared, PAPI: p.PAPI, PPlain: p.PPlain, PBound: p.PBound,
 		Depth: p.Depth, EstSteps: p.EstSteps, HerdAt: p.HerdAt, StallTask: p.StallTask, StallOp: p.StallOp, StallStep: p.StallStep,
-		GCSteps: p.GCSteps, First: -1}
+		GCSteps: p.GCSteps, ClockSteps: p.ClockSteps, ClockDeltas: p.ClockDeltas, First: -1}
 }
 
 func toScript(rec *proto.RunRec) simrt.Policy {
@@ -180,7 +184,7 @@ func toScript(rec *proto.RunRec) simrt.Policy {
 		if e.Kind == simrt.EvUnstall {
 			continue
 		}
-		p.Script = append(p.Script, simrt.Event{Kind: e.Kind, Task: e.Task, Next: e.Next, Op: e.Op, OpStep: e.OpStep, Site: e.Site, Step: e.Step})
+		p.Script = append(p.Script, simrt.Event{Kind: e.Kind, Task: e.Task, Next: e.Next, Op: e.Op, OpStep: e.OpStep, Site: e.Site, Step: e.Step, Arg: e.Arg})
 	}
 	return p
 }
@@ -217,6 +221,21 @@ func execRun(rec *proto.RunRec, free bool) runOutcome {
 		}
 	}
 	var out runOutcome
+	// while a call is in flight and its task is switched away from, look at the caller's
+	// slice: a modification that is undone before the call returns is still a modification
+	simrt.SwitchHook = func(task int) {
+		if task < 0 || task >= len(ts) {
+			return
+		}
+		st := &ts[task]
+		if a := st.inflight; a != nil && !st.midFlagged {
+			if d := a.changed(); d != "" {
+				st.midFlagged = true
+				st.viol = append(st.viol, proto.Violation{Class: "arg_mutated", Task: task, Op: st.inOp, Fn: st.inFn,
+					Detail: "caller's slice differs WHILE the call is running (observed at a preemption point): " + d})
+			}
+		}
+	}
 	wg.Add(nt)
 	if free {
 		for i := 0; i < nt; i++ {
@@ -312,7 +331,9 @@ func doOp(task int, op *proto.Op, shared map[int]*argSlice, st *taskState) {
 	}
 	simrt.OpBegin(int32(op.ID), int32(op.Fam))
 	c0 := capSize()
+	st.inflight, st.inOp, st.inFn = a, op.ID, op.Fn
 	outcome, res, panicked := invoke(op.Fn, op.Expr, arg)
+	st.inflight = nil
 	c1 := capSize()
 	st.ops++
 	if panicked {
